@@ -531,7 +531,7 @@ class NonRigidTransform(SpatialTransform):
         u = getattr(self, "u", None)
         if u is None:
             u = getattr(self.update(), "u", None)
-        if u is None or "u" not in {name for name, _, in self.named_buffers()}:
+        if u is None or "u" not in self._buffers:  # named_buffers() omits "u" when same tensor as "v"
             raise AssertionError(
                 f"{type(self).__name__}.update() required to register"
                 " displacement vector field tensor as buffer named 'u'."
